@@ -109,11 +109,15 @@ class Scenario:
             self.dev.append(self.col)
             self.G = pgm.make_compiler(self.cfg, 'w.pgm')
         self.M = np.array(self.wgs[0].points, copy=True)            # caller's point matrix (float32)
+        x0, y0 = rng.choice([0.0, 1.5, -0.75]), rng.choice([0.0, 0.25])
+        self.S = np.array([[x0, x0 + 1, x0 + 1, x0, x0, x0], [y0, y0, y0 + 0.5, y0 + 0.5, y0, y0], [0.02] * 6, [5.0] * 6,
+                           [1, 1, 1, 1, 1, 0]], dtype=np.float32)
         self.xyz = [np.array(a, dtype=np.float32) for a in (self.wgs[-1]._x, self.wgs[-1]._y, self.wgs[-1]._z)]
 
     def objects_state(self):
         parts = [path_state(w) for w in self.wgs + self.mks]
         parts.append(self.M)
+        parts.append(self.S)
         parts.extend(self.xyz)
         for wr in self.dev.writers.values():
             parts.append(structure(wr.obj_list))
@@ -130,6 +134,12 @@ class Scenario:
                 G._shutter_on = False
                 G.write(self.M)
                 return 1, h60(''.join(G._instructions))
+            if op == 'write_stroke':
+                # a hand-built matrix: a closed contour that starts with the shutter open and returns to its first point
+                G._instructions.clear()
+                G._shutter_on = False
+                G.write(self.S)
+                return 11, h60(''.join(G._instructions))
             if op == 'write_points':
                 G._instructions.clear()
                 G._shutter_on = False
@@ -178,7 +188,7 @@ class Scenario:
         raise AssertionError(op)
 
 
-OPS = ['write', 'write_points', 'transform', 'plot2d', 'plot3d', 'pgm', 'toolpath', 'fab_time', 'xlsx']
+OPS = ['write', 'write_points', 'transform', 'plot2d', 'plot3d', 'pgm', 'toolpath', 'fab_time', 'xlsx', 'write_stroke']
 
 
 def run(rep: common.Report, tier: str, seed: int):
@@ -192,7 +202,7 @@ def run(rep: common.Report, tier: str, seed: int):
         ops = [rng.choice(OPS) for _ in range(n)]
         # make sure some operation is repeated
         ops.append(rng.choice(ops))
-        ops.append(rng.choice(['pgm', 'toolpath', 'write', 'transform']))
+        ops.append(rng.choice(['pgm', 'toolpath', 'write', 'transform', 'write_stroke']))
         ops.append(ops[-1])
         obs, args = [], []
         for op in ops:
@@ -200,7 +210,7 @@ def run(rep: common.Report, tier: str, seed: int):
             try:
                 k, dg = sc.do(op)
             except Exception as e:     # an operation that raises is reported as its own observation
-                k, dg = OPS.index(op) + 1, h60('raised', type(e).__name__)
+                k, dg = (11 if op == 'write_stroke' else OPS.index(op) + 1), h60('raised', type(e).__name__)
             after = sc.objects_state()
             obs.append((k, dg))
             args.append((before, after))
